@@ -1,17 +1,475 @@
-//! stub: component `eventports` (event service ports; to be written)
+//! C05 (port level) / C08 (event pattern) / C17 flavour: the real event ports (`Notifier`, `Listener`) of an
+//! event service driven through the public API, one call per line.
+//!
+//! `new <variant> <max_notifiers> <max_listeners> <event_id_max> <created|-> <dropped|-> <dead|-> <max_nodes> <deadline: -|long|short>`
+//!   node 0 is created and creates the service.
+//! `open k`            a further node k is created and opens the service (its own service handle)
+//! `cnot n <id|-> k`   node k's service handle creates notifier n (default event id)
+//! `dnot n` `clis l k` `dlis l`
+//! `notify n` `notifyid n <id>`   -> `ok:<number of listeners notified>` / `err:<enum>`
+//! `wait l`            try_wait, sorted ids (ids only)   `twait l` timed_wait
+//! `count k`           dynamic config as seen through service handle k: notifiers, listeners
+//! `dnode k` `dsvc k`  drop the node handle / the service handle of node k
+//! `kill k`            node k dies: node handle, service handle and all its ports are abandoned (as after a crash)
+//! `cleanup k`         node k runs `try_cleanup_dead_nodes`
+//! `ls`                files of the case by kind (ipc)
 use crate::common::*;
+use core::time::Duration;
+use iceoryx2::port::listener::Listener;
+use iceoryx2::port::notifier::Notifier;
+use iceoryx2::prelude::*;
+use iceoryx2::service::port_factory::event::PortFactory;
+use iceoryx2::service::port_factory::PortFactory as _;
+use iceoryx2_bb_elementary_traits::testing::abandonable::Abandonable;
+use std::collections::{BTreeMap, BTreeSet, HashMap};
 
-pub struct EventPortsComp;
+static SERVICE_COUNTER: std::sync::atomic::AtomicUsize = std::sync::atomic::AtomicUsize::new(0);
+
+struct Part<S: Service> {
+    node: Option<Node<S>>,
+    svc: Option<PortFactory<S>>,
+    dead: bool,
+}
+
+struct World<S: Service> {
+    config: iceoryx2::config::Config,
+    name: ServiceName,
+    prefix: String,
+    parts: BTreeMap<usize, Part<S>>,
+    node_dirs: Vec<String>,
+    nots: HashMap<usize, (Notifier<S>, usize)>,
+    liss: HashMap<usize, (Listener<S>, usize)>,
+    not_labels: BTreeSet<usize>,
+    lis_labels: BTreeSet<usize>,
+    id_max: usize,
+    created: Option<usize>,
+    dropped: Option<usize>,
+    dead_ev: Option<usize>,
+    // oracles (independent of the model)
+    may: HashMap<usize, BTreeSet<usize>>,  // ids some notify / lifecycle event produced since the listener's last wait
+    must: HashMap<usize, BTreeSet<usize>>, // ids of notifies that returned ok while the listener existed, not yet reported
+    killed_listeners: usize,               // listeners of dead nodes that nobody cleaned up yet (upper bound)
+    defaults: HashMap<usize, usize>,       // default event id per notifier
+}
+
+pub enum AnyWorld {
+    None,
+    Local(Box<World<local::Service>>),
+    Ipc(Box<World<ipc::Service>>),
+}
+pub struct EventPortsComp {
+    w: AnyWorld,
+}
 impl EventPortsComp {
     pub fn new() -> Self {
-        EventPortsComp
+        EventPortsComp { w: AnyWorld::None }
     }
 }
+fn n(s: &str) -> usize {
+    s.parse().unwrap()
+}
+fn opt(s: &str) -> Option<usize> {
+    if s == "-" { None } else { Some(n(s)) }
+}
+
+fn mk<S: Service>(t: &[&str]) -> Result<World<S>, String> {
+    let k = SERVICE_COUNTER.fetch_add(1, std::sync::atomic::Ordering::Relaxed);
+    let mut config = iceoryx2::config::Config::global_config().clone();
+    // own domain: nothing is shared with other iceoryx2 users of this machine (test suites, other checks)
+    let prefix = format!("ve{}c{}_", std::process::id(), k);
+    config.global.prefix = iceoryx2_bb_system_types::file_name::FileName::new(prefix.as_bytes()).unwrap();
+    // dead nodes are cleaned up by the explicit `cleanup` call only
+    config.global.node.cleanup_dead_nodes_on_creation = false;
+    config.global.node.cleanup_dead_nodes_on_destruction = false;
+    config.global.service.cleanup_dead_nodes_on_open = false;
+    let node = NodeBuilder::new().config(&config).create::<S>().map_err(|e| format!("err:node:{e:?}"))?;
+    let name = ServiceName::new(&format!("verif/eventports/{}/{k}", std::process::id())).unwrap();
+    let mut b = node
+        .service_builder(&name)
+        .event()
+        .max_notifiers(n(t[2]))
+        .max_listeners(n(t[3]))
+        .event_id_max_value(n(t[4]))
+        .max_nodes(n(t[8]));
+    b = match opt(t[5]) { Some(v) => b.notifier_created_event(EventId::new(v)), None => b.disable_notifier_created_event() };
+    b = match opt(t[6]) { Some(v) => b.notifier_dropped_event(EventId::new(v)), None => b.disable_notifier_dropped_event() };
+    b = match opt(t[7]) { Some(v) => b.notifier_dead_event(EventId::new(v)), None => b.disable_notifier_dead_event() };
+    b = match t[9] {
+        "long" => b.deadline(Duration::from_secs(100_000)),
+        "short" => b.deadline(Duration::from_nanos(1)),
+        _ => b.disable_deadline(),
+    };
+    let service = b.create().map_err(|e| format!("err:service:{e:?}"))?;
+    let node_dir = format!("{}", node.id().value());
+    let mut parts = BTreeMap::new();
+    parts.insert(0, Part { node: Some(node), svc: Some(service), dead: false });
+    Ok(World {
+        config, name, prefix, parts, node_dirs: vec![node_dir], nots: HashMap::new(), liss: HashMap::new(),
+        not_labels: Default::default(), lis_labels: Default::default(),
+        id_max: n(t[4]), created: opt(t[5]), dropped: opt(t[6]), dead_ev: opt(t[7]),
+        may: HashMap::new(), must: HashMap::new(), killed_listeners: 0, defaults: HashMap::new(),
+    })
+}
+
+fn exec<S: Service>(w: &mut World<S>, t: &[&str]) -> String {
+    // a lifecycle event (or any notify) may reach every listener that exists (also those of dead nodes, irrelevant)
+    fn produced<S: Service>(w: &mut World<S>, id: usize) {
+        for l in w.liss.keys() { w.may.entry(*l).or_default().insert(id); }
+    }
+    fn delivered<S: Service>(w: &mut World<S>, id: usize) {
+        for l in w.liss.keys() { w.must.entry(*l).or_default().insert(id); }
+    }
+    match t[0] {
+        "open" => {
+            let k = n(t[1]);
+            if w.parts.contains_key(&k) { return "dup".into(); }
+            let node = match NodeBuilder::new().config(&w.config).create::<S>() { Ok(v) => v, Err(e) => return format!("err:node:{e:?}") };
+            match node.service_builder(&w.name).event().open() {
+                Ok(svc) => {
+                    w.node_dirs.push(format!("{}", node.id().value()));
+                    w.parts.insert(k, Part { node: Some(node), svc: Some(svc), dead: false });
+                    "ok".into()
+                }
+                // the node is dropped again
+                Err(e) => format!("err:EventOpenError::{e:?}"),
+            }
+        }
+        "cnot" => {
+            let (nl, k) = (n(t[1]), n(t[3]));
+            if w.not_labels.contains(&nl) { return "dup".into(); }
+            let Some(p) = w.parts.get(&k) else { return "no-node".into() };
+            if p.dead { return "dead".into(); }
+            let Some(svc) = p.svc.as_ref() else { return "no-service".into() };
+            let mut b = svc.notifier_builder();
+            if let Some(d) = opt(t[2]) { b = b.default_event_id(EventId::new(d)); }
+            match b.create() {
+                Ok(x) => {
+                    w.not_labels.insert(nl);
+                    w.nots.insert(nl, (x, k));
+                    w.defaults.insert(nl, opt(t[2]).unwrap_or(0));
+                    if let Some(c) = w.created { produced(w, c); if c <= w.id_max { delivered(w, c); } }
+                    "ok".into()
+                }
+                Err(e) => format!("err:NotifierCreateError::{e:?}"),
+            }
+        }
+        "dnot" => match w.nots.remove(&n(t[1])) {
+            Some((x, _)) => {
+                drop(x);
+                if let Some(c) = w.dropped { produced(w, c); if c <= w.id_max { delivered(w, c); } }
+                "ok".into()
+            }
+            None => "none".into(),
+        },
+        "clis" => {
+            let (l, k) = (n(t[1]), n(t[2]));
+            if w.lis_labels.contains(&l) { return "dup".into(); }
+            let Some(p) = w.parts.get(&k) else { return "no-node".into() };
+            if p.dead { return "dead".into(); }
+            let Some(svc) = p.svc.as_ref() else { return "no-service".into() };
+            match svc.listener_builder().create() {
+                Ok(x) => { w.lis_labels.insert(l); w.liss.insert(l, (x, k)); w.may.insert(l, Default::default()); w.must.insert(l, Default::default()); "ok".into() }
+                Err(e) => format!("err:ListenerCreateError::{e:?}"),
+            }
+        }
+        "dlis" => match w.liss.remove(&n(t[1])) { Some((x, _)) => { drop(x); w.may.remove(&n(t[1])); w.must.remove(&n(t[1])); "ok".into() } None => "none".into() },
+        "notify" | "notifyid" => {
+            let nl = n(t[1]);
+            let Some((x, _)) = w.nots.get(&nl) else { return "none".into() };
+            let r = if t[0] == "notify" { x.notify() } else { x.notify_with_custom_event_id(EventId::new(n(t[2]))) };
+            let id = if t[0] == "notify" { w.defaults.get(&nl).cloned().unwrap_or(0) } else { n(t[2]) };
+            let live = w.liss.len();
+            let killed = w.killed_listeners;
+            match r {
+                Ok(c) => {
+                    produced(w, id); delivered(w, id);
+                    if c < live || c > live + killed { oracle_fail("notify count differs from the number of existing listeners".to_string()); }
+                    format!("ok:{c}")
+                }
+                Err(e) => {
+                    if e == iceoryx2::port::notifier::NotifierNotifyError::MissedDeadline { produced(w, id); delivered(w, id); }
+                    else if e != iceoryx2::port::notifier::NotifierNotifyError::EventIdOutOfBounds { produced(w, id); }
+                    format!("err:NotifierNotifyError::{e:?}")
+                }
+            }
+        }
+        "wait" | "twait" => {
+            let l = n(t[1]);
+            let Some((x, _)) = w.liss.get(&l) else { return "none".into() };
+            let mut ids: Vec<usize> = vec![];
+            let r = if t[0] == "wait" { x.try_wait(|e| ids.push(e.id.as_value())) } else {
+                let to = if w.must.get(&l).map(|s| !s.is_empty()).unwrap_or(false) { Duration::from_secs(2) } else { Duration::ZERO };
+                x.timed_wait(|e| ids.push(e.id.as_value()), to)
+            };
+            if let Err(e) = r { return format!("err:ListenerWaitError::{e:?}"); }
+            ids.sort();
+            let may = w.may.insert(l, Default::default()).unwrap_or_default();
+            let must = w.must.insert(l, Default::default()).unwrap_or_default();
+            for i in &ids { if !may.contains(i) { oracle_fail("listener reports an id nobody notified since its last wait".to_string()); break; } }
+            for i in &must { if !ids.contains(i) { oracle_fail("listener misses an id whose notify returned ok while it existed".to_string()); break; } }
+            for i in 1..ids.len() { if ids[i] == ids[i - 1] { oracle_fail("id reported twice in one wait".to_string()); break; } }
+            let v: Vec<String> = ids.iter().map(|x| x.to_string()).collect();
+            format!("[{}]", v.join(","))
+        }
+        "count" => {
+            let Some(p) = w.parts.get(&n(t[1])) else { return "no-node".into() };
+            if p.dead { return "dead".into(); }
+            let Some(svc) = p.svc.as_ref() else { return "no-service".into() };
+            format!("n={},l={}", svc.dynamic_config().number_of_notifiers(), svc.dynamic_config().number_of_listeners())
+        }
+        // C17: the node handle / the service handle are dropped while everything else lives on
+        "dnode" => match w.parts.get_mut(&n(t[1])) { Some(p) if !p.dead => match p.node.take() { Some(x) => { drop(x); "ok".into() } None => "none".into() }, Some(_) => "dead".into(), None => "no-node".into() },
+        "dsvc" => match w.parts.get_mut(&n(t[1])) { Some(p) if !p.dead => match p.svc.take() { Some(x) => { drop(x); "ok".into() } None => "none".into() }, Some(_) => "dead".into(), None => "no-node".into() },
+        "kill" => {
+            let k = n(t[1]);
+            let Some(p) = w.parts.get_mut(&k) else { return "no-node".into() };
+            if p.dead { return "dead".into(); }
+            p.dead = true;
+            // as in the conformance tests: node, ports, service
+            if let Some(x) = p.node.take() { x.abandon(); }
+            let ns: Vec<usize> = w.nots.iter().filter(|(_, v)| v.1 == k).map(|(a, _)| *a).collect();
+            for a in ns { let (x, _) = w.nots.remove(&a).unwrap(); x.abandon(); }
+            let ls: Vec<usize> = w.liss.iter().filter(|(_, v)| v.1 == k).map(|(a, _)| *a).collect();
+            for a in ls { let (x, _) = w.liss.remove(&a).unwrap(); x.abandon(); w.may.remove(&a); w.must.remove(&a); w.killed_listeners += 1; }
+            let p = w.parts.get_mut(&k).unwrap();
+            if let Some(x) = p.svc.take() { x.abandon(); }
+            "ok".into()
+        }
+        "cleanup" => {
+            let Some(p) = w.parts.get(&n(t[1])) else { return "no-node".into() };
+            if p.dead { return "dead".into(); }
+            let Some(node) = p.node.as_ref() else { return "none".into() };
+            let r = node.try_cleanup_dead_nodes();
+            if let Some(c) = w.dead_ev { produced(w, c); }
+            if r.failed_cleanups == 0 { w.killed_listeners = 0; }
+            format!("c={},f={}", r.cleanups, r.failed_cleanups)
+        }
+        "ls" => list_resources(&w.prefix, &w.node_dirs),
+        _ => panic!("bad op"),
+    }
+}
+
+/// what exists of this case in the file system / shared memory namespace, by kind (ipc variant)
+fn list_resources(prefix: &str, node_dirs: &[String]) -> String {
+    let mut counts: BTreeMap<String, usize> = Default::default();
+    let mut scan = |dir: &str| {
+        if let Ok(rd) = std::fs::read_dir(dir) {
+            for e in rd.flatten() {
+                let n = e.file_name().to_string_lossy().to_string();
+                if n.starts_with(prefix) {
+                    let kind = n.rsplit('.').next().unwrap_or("?").to_string();
+                    *counts.entry(kind).or_insert(0) += 1;
+                }
+            }
+        }
+    };
+    scan("/dev/shm");
+    scan("/tmp/iceoryx2/nodes");
+    scan("/tmp/iceoryx2/services");
+    scan("/tmp/iceoryx2/events");
+    scan("/tmp/iceoryx2");
+    for d in node_dirs { scan(&format!("/tmp/iceoryx2/nodes/{d}")); }
+    let mut dirs = 0;
+    for d in node_dirs { if std::path::Path::new(&format!("/tmp/iceoryx2/nodes/{d}")).exists() { dirs += 1; } }
+    if dirs > 0 { counts.insert("nodedir".into(), dirs); }
+    counts.remove("global_mgmt"); // the domain-wide management segment persists by design
+    let v: Vec<String> = counts.iter().map(|(k, c)| format!("{k}={c}")).collect();
+    if v.is_empty() { "-".into() } else { v.join(",") }
+}
+
 impl Comp for EventPortsComp {
-    fn exec(&mut self, _t: &[&str]) -> String {
-        "unimplemented".into()
+    fn exec(&mut self, t: &[&str]) -> String {
+        if t[0] == "new" {
+            self.w = AnyWorld::None;
+            return match t[1] {
+                "local" => match mk::<local::Service>(t) { Ok(w) => { self.w = AnyWorld::Local(Box::new(w)); "ok".into() } Err(e) => e },
+                _ => match mk::<ipc::Service>(t) { Ok(w) => { self.w = AnyWorld::Ipc(Box::new(w)); "ok".into() } Err(e) => e },
+            };
+        }
+        match &mut self.w {
+            AnyWorld::None => "no-world".into(),
+            AnyWorld::Local(w) => exec(w, t),
+            AnyWorld::Ipc(w) => exec(w, t),
+        }
     }
 }
-pub fn generate(_a: &Args) -> Vec<Vec<String>> {
-    vec![]
+
+
+fn optstr(rng: &mut Rng, none_pct: u64, hi: u64) -> String {
+    if rng.chance(none_pct) { "-".into() } else { rng.range(0, hi).to_string() }
+}
+
+pub fn generate(a: &Args) -> Vec<Vec<String>> {
+    let variant = a.rest.iter().find(|x| *x == "ipc").map(|_| "ipc").unwrap_or("local");
+    let limits = a.rest.iter().any(|x| x == "limits");
+    if a.rest.iter().any(|x| x == "shutdown") {
+        return shutdown_cases(a, variant);
+    }
+    if a.exhaustive > 0 {
+        return exhaustive(a, variant);
+    }
+    let mut rng = Rng::new(a.seed);
+    let mut cases = vec![];
+    for _ in 0..a.cases {
+        // limits 0..3 (0 is adjusted to 1 by the builder); `limits`: small limits, creation-heavy
+        let hi = if limits { 2 } else { 3 };
+        let (mn, ml, nodes) = (rng.range(0, hi), rng.range(0, hi), rng.range(0, 3));
+        let idmax = rng.range(0, 4);
+        // lifecycle ids, sometimes larger than the maximum
+        let (c, d, x) = (optstr(&mut rng, 40, idmax + 1), optstr(&mut rng, 40, idmax + 1), optstr(&mut rng, 40, idmax + 1));
+        let dl = match rng.below(10) { 0 => "long", 1 => "short", _ => "-" };
+        let mut lines = vec![format!("new {variant} {mn} {ml} {idmax} {c} {d} {x} {nodes} {dl}")];
+        // what probably exists (mostly valid histories)
+        let mut parts: Vec<usize> = vec![0];
+        let mut dead: Vec<usize> = vec![];
+        let (mut nots, mut liss): (Vec<(usize, usize)>, Vec<(usize, usize)>) = (vec![], vec![]);
+        let (mut nn, mut nl, mut np) = (0usize, 0usize, 1usize);
+        // weights: open, cnot, clis, dnot, dlis, notify, notifyid, wait, count, dnode, dsvc, kill, cleanup, ls, twait
+        let wts: [u64; 15] = if limits { [6, 16, 16, 8, 8, 10, 6, 10, 4, 1, 1, 2, 3, 3, 1] } else { [4, 9, 10, 4, 4, 18, 12, 20, 3, 2, 2, 3, 4, 3, 2] };
+        let total: u64 = wts.iter().sum();
+        for _ in 0..rng.range(3, a.len) {
+            let mut c = rng.below(total);
+            let mut k = 0;
+            while c >= wts[k] { c -= wts[k]; k += 1; }
+            if nots.is_empty() && rng.chance(40) { k = 1 }
+            if liss.is_empty() && rng.chance(40) { k = 2 }
+            // a node to act through: mostly a live one
+            let some_part = |rng: &mut Rng, parts: &Vec<usize>, dead: &Vec<usize>| -> usize {
+                if rng.chance(4) { return rng.below(4) as usize }
+                if !dead.is_empty() && rng.chance(5) { return *rng.pick(dead) }
+                if parts.is_empty() { 0 } else { *rng.pick(parts) }
+            };
+            let l = match k {
+                0 => { let p = np; np += 1; parts.push(p); format!("open {p}") }
+                1 => {
+                    let p = some_part(&mut rng, &parts, &dead);
+                    let x = nn; nn += 1; nots.push((x, p));
+                    format!("cnot {x} {} {p}", optstr(&mut rng, 30, idmax + 1))
+                }
+                2 => {
+                    let p = some_part(&mut rng, &parts, &dead);
+                    let x = nl; nl += 1; liss.push((x, p));
+                    format!("clis {x} {p}")
+                }
+                3 if !nots.is_empty() => { let i = rng.below(nots.len() as u64) as usize; let (x, _) = nots.remove(i); format!("dnot {x}") }
+                4 if !liss.is_empty() => { let i = rng.below(liss.len() as u64) as usize; let (x, _) = liss.remove(i); format!("dlis {x}") }
+                5 if !nots.is_empty() => format!("notify {}", rng.pick(&nots).0),
+                6 if !nots.is_empty() => format!("notifyid {} {}", rng.pick(&nots).0, rng.range(0, idmax + 1)),
+                7 if !liss.is_empty() => format!("wait {}", rng.pick(&liss).0),
+                14 if !liss.is_empty() => format!("twait {}", rng.pick(&liss).0),
+                8 => format!("count {}", some_part(&mut rng, &parts, &dead)),
+                9 => format!("dnode {}", some_part(&mut rng, &parts, &dead)),
+                10 => format!("dsvc {}", some_part(&mut rng, &parts, &dead)),
+                11 if parts.len() > 1 || rng.chance(10) => {
+                    // mostly not the creator, so that somebody is left to clean up
+                    let i = rng.below(parts.len() as u64) as usize;
+                    if parts.is_empty() { continue }
+                    let p = parts.remove(i);
+                    dead.push(p);
+                    nots.retain(|e| e.1 != p || rng.chance(5));
+                    liss.retain(|e| e.1 != p || rng.chance(5));
+                    format!("kill {p}")
+                }
+                12 => format!("cleanup {}", some_part(&mut rng, &parts, &dead)),
+                13 => "ls".to_string(),
+                _ => continue,
+            };
+            lines.push(l);
+        }
+        cases.push(lines);
+    }
+    cases
+}
+
+/// every sequence of length `exhaustive` over a fixed alphabet, for a few small configurations
+fn exhaustive(a: &Args, variant: &str) -> Vec<Vec<String>> {
+    let mut cases = vec![];
+    // (max_notifiers max_listeners event_id_max created dropped dead max_nodes deadline)
+    let configs = ["2 2 3 1 2 3 2 -", "1 1 1 - 1 2 2 -", "2 1 2 0 - 1 3 short"];
+    let alphabet: Vec<String> = [
+        "cnot", "clis", "dnot", "dlis", "notify 0", "notify 1", "notifyid 0 9", "wait 0", "wait 1", "dsvc 0", "dnode 0", "open", "kill 1", "cleanup 0", "count 1",
+    ].iter().map(|x| x.to_string()).collect();
+    for cfg in configs {
+        enumerate_seqs(&alphabet, a.exhaustive as usize, &mut |seq| {
+            // prefix: a second node, one notifier (node 1) and one listener (node 0) exist, one notification is pending
+            let mut lines = vec![format!("new {variant} {cfg}"), "open 1".to_string(), "cnot 0 1 1".to_string(), "clis 0 0".to_string(), "notify 0".to_string()];
+            let (mut nn, mut nl, mut np) = (1usize, 1usize, 2usize);
+            let (mut dn, mut dl) = (0usize, 0usize);
+            for &i in seq {
+                match alphabet[i].as_str() {
+                    "cnot" => { lines.push(format!("cnot {nn} 0 {}", nn % 2)); nn += 1; }
+                    "clis" => { lines.push(format!("clis {nl} {}", nl % 2)); nl += 1; }
+                    "dnot" => { lines.push(format!("dnot {dn}")); dn += 1; }
+                    "dlis" => { lines.push(format!("dlis {dl}")); dl += 1; }
+                    "open" => { lines.push(format!("open {np}")); np += 1; }
+                    x => lines.push(x.to_string()),
+                }
+            }
+            lines.push("ls".into());
+            cases.push(lines);
+        });
+    }
+    cases
+}
+
+/// C17 flavour: an object graph (node handles, service handles, notifiers, listeners in one or two nodes) is dropped in
+/// some order; `ls` after every drop, survivors are exercised in between.
+/// `--exhaustive 1`: every permutation of the drop order of a fixed graph of 6 objects (720) per configuration.
+fn shutdown_cases(a: &Args, variant: &str) -> Vec<Vec<String>> {
+    let mut cases = vec![];
+    let mut rng = Rng::new(a.seed ^ 0x17);
+    if a.exhaustive > 0 {
+        let objs = ["dnode 0", "dsvc 0", "dnot 0", "dlis 0", "dnot 1", "dlis 1"];
+        let mut perm: Vec<usize> = (0..objs.len()).collect();
+        let mut perms = vec![];
+        fn heap(k: usize, p: &mut Vec<usize>, out: &mut Vec<Vec<usize>>) {
+            if k == 1 { out.push(p.clone()); return; }
+            heap(k - 1, p, out);
+            for i in 0..k - 1 {
+                if k % 2 == 0 { p.swap(i, k - 1) } else { p.swap(0, k - 1) }
+                heap(k - 1, p, out);
+            }
+        }
+        heap(objs.len(), &mut perm, &mut perms);
+        for cfg in ["2 2 3 1 2 3 2 -", "2 2 1 - - - 1 -"] {
+            for p in &perms {
+                let mut lines = vec![format!("new {variant} {cfg}"), "cnot 0 0 0".into(), "clis 0 0".into(), "cnot 1 1 0".into(), "clis 1 0".into(), "notify 0".into(), "ls".into()];
+                for (j, &i) in p.iter().enumerate() {
+                    lines.push(objs[i].to_string());
+                    lines.push("ls".into());
+                    // survivors keep working
+                    if j == 2 { lines.push("notify 0".into()); lines.push("notify 1".into()); lines.push("wait 0".into()); lines.push("wait 1".into()); }
+                }
+                cases.push(lines);
+            }
+        }
+        return cases;
+    }
+    for _ in 0..a.cases {
+        let np = rng.range(1, 2) as usize;
+        let (mn, ml) = (rng.range(1, 3), rng.range(1, 3));
+        let idmax = rng.range(1, 3);
+        let mut lines = vec![format!("new {variant} {mn} {ml} {idmax} {} {} {} {np} -", optstr(&mut rng, 50, idmax), optstr(&mut rng, 50, idmax), optstr(&mut rng, 50, idmax))];
+        let mut objs: Vec<String> = vec![];
+        for p in 0..np { if p > 0 { lines.push(format!("open {p}")); } objs.push(format!("dnode {p}")); objs.push(format!("dsvc {p}")); }
+        for x in 0..mn { lines.push(format!("cnot {x} {} {}", rng.range(0, idmax), rng.below(np as u64))); objs.push(format!("dnot {x}")); }
+        for x in 0..ml { lines.push(format!("clis {x} {}", rng.below(np as u64))); objs.push(format!("dlis {x}")); }
+        lines.push("ls".into());
+        for i in (1..objs.len()).rev() {
+            let j = rng.below(i as u64 + 1) as usize;
+            objs.swap(i, j);
+        }
+        while let Some(o) = objs.pop() {
+            lines.push(o);
+            lines.push("ls".into());
+            for s in &objs {
+                let t: Vec<&str> = s.split(' ').collect();
+                if t[0] == "dnot" && rng.chance(40) { lines.push(format!("notify {}", t[1])); }
+                if t[0] == "dlis" && rng.chance(40) { lines.push(format!("wait {}", t[1])); }
+            }
+        }
+        lines.push("ls".into());
+        cases.push(lines);
+    }
+    cases
 }
